@@ -201,7 +201,16 @@ int main(int argc, char **argv) {
         while (fscanf(f, "%d %63s", &w, hex) == 2) g_values.push_back({w, strtoull(hex, 0, 16)});
         fclose(f);
         g_fail = 0;
+        int live0 = 0;
+        for (int i = 0; i < g_efn; i++) if (g_ef[i].user) live0++;
+        int mark = g_efn;
         SYMX_ENTRY();
+        if (getenv("SYMX_LEAKCHECK") && ef_on()) {
+            /* blocks allocated by the entry point and never freed (guard-page allocator table) */
+            int leaked = 0; size_t bytes = 0;
+            for (int i = mark; i < g_efn; i++) if (g_ef[i].user) { leaked++; bytes += g_ef[i].n; }
+            if (leaked) { printf("CHECK-FAILED memory leak: %d block(s), %zu bytes allocated during the call are still live\n", leaked, bytes); g_fail++; }
+        }
         printf("REPLAY-DONE fails=%d consumed=%zu/%zu\n", g_fail, g_pos, g_values.size());
         return g_fail ? 1 : 0;
     }
